@@ -122,7 +122,7 @@ TRUSTED = [
     "and envelope.squared are additionally REGENERATED from the source on every run and proved equal to the model (src_*_is_model); "
     "maverage.recursive / .fir, accumulate.z (ZFilter operator expressions), accumulate.accumulate (itertools) and the sqrt of "
     "envelope.rms stay hand-written, tied by sampling only",
-    "body translator harness/props/c20_tr.py (ast on the source text, ~600 lines, trusted like the harness): assumes the semantics of its "
+    "body translator harness/props/c20_tr.py (ast on the source text, ~800 lines, trusted like the harness): assumes the semantics of its "
     "Python subset - a generator reading ONE iterator over a finite input is the list of its yields; `for` over that iterator after "
     "`next` / `break` continues with the remaining items; `if/else`, conditional expressions, `x = e`, `x += e` as in Lean lets; "
     "`try: x = next(it) / except StopIteration: return` = match on the remaining list - and the vocabulary mapping abs -> absG, "
